@@ -220,6 +220,9 @@ func doRequestFollowRedirectsBuffer(ctx context.Context, req *protocol.Request, 
 func DoRequestFollowRedirects(ctx context.Context, req *protocol.Request, resp *protocol.Response, url string, maxRedirectsCount int, c Doer) (statusCode int, body []byte, err error) {
 	redirectsCount := 0
 
+	// A body stream is used up (and forgotten by the request) by the first hop: the request
+	// cannot be sent to the next location, the caller gets the redirect itself.
+	streamedBody := req.IsBodyStream()
 	for {
 		req.SetRequestURI(url)
 		req.ParseURI()
@@ -228,7 +231,7 @@ func DoRequestFollowRedirects(ctx context.Context, req *protocol.Request, resp *
 			break
 		}
 		statusCode = resp.Header.StatusCode()
-		if !StatusCodeIsRedirect(statusCode) {
+		if !StatusCodeIsRedirect(statusCode) || streamedBody {
 			break
 		}
 
